@@ -38,7 +38,7 @@ def plan(tier, seed):
     b = 6 if tier == 'quick' else 14
     for i in range(b):
         shards.append({'name': 'boundary-%d' % i, 'fn': 'shard_boundary', 'args': {'part': i, 'parts': b}})
-    for i in range(2 if tier == 'quick' else 6):
+    for i in range(2 if tier == 'quick' else 12):
         shards.append({'name': 'task-%d' % i, 'fn': 'shard_task', 'args': {'part': i}})
     return shards
 
